@@ -98,6 +98,30 @@ T thetaMinusSinByThetaCu(const T& theta, const T& theta_sq)
   return (theta - sin(theta)) / (theta_sq * theta);
 }
 
+/**
+ * @brief Compute (1 - (theta/2) cot(theta/2)) / theta^2 without cancellation.
+ * @param[in] theta The angle, must not be zero.
+ * @param[in] theta_sq The squared angle.
+ * @note This is also 1/theta^2 - (1+cos(theta)) / (2 theta sin(theta)),
+ * written so that it remains accurate for theta close to pi.
+ * A series expansion is used for small angles.
+ */
+template <typename T>
+T oneMinusHalfThetaCotHalfThetaByThetaSq(const T& theta, const T& theta_sq)
+{
+  using std::sin;
+  using std::cos;
+
+  if (theta_sq < T(1e-2))
+  {
+    return T(1./12.) + theta_sq * (T(1./720.) + theta_sq * (T(1./30240.) +
+           theta_sq * (T(1./1209600.) + theta_sq * T(1./47900160.))));
+  }
+
+  const T half_theta = theta / T(2);
+  return (T(1) - half_theta * cos(half_theta) / sin(half_theta)) / theta_sq;
+}
+
 } /* namespace internal */
 } /* namespace manif */
 
